@@ -447,9 +447,9 @@ fn check_bufsim(o: &Opts, prop: Prop) {
 	let known = load_known(&o.verif);
 	let thorough = o.tier == "thorough";
 	let total = match prop {
-		Prop::C04 => tier_runs(o, 6_000_000, 60_000_000),
-		Prop::C10 => tier_runs(o, 4_000_000, 30_000_000),
-		Prop::C11 => tier_runs(o, 6_000_000, 60_000_000),
+		Prop::C04 => tier_runs(o, 6_000_000, 120_000_000),
+		Prop::C10 => tier_runs(o, 4_000_000, 50_000_000),
+		Prop::C11 => tier_runs(o, 6_000_000, 100_000_000),
 	};
 	println!("irefsim bufsim property={} tier={} seed={} runs={} jobs={} profile={}", prop.id(), o.tier, o.seed, total, o.jobs, o.profile);
 	let (corpus_n, mut known_lines) = run_corpus(o, &known, prop.id());
